@@ -24,5 +24,8 @@ for d in sorted(glob.glob(V + "/seeded/C*")):
             "verification_log": ver.strip().splitlines(), "detection": det, "caught_by_checks": caught}
     json.dump(meta, open(d + "/meta.json", "w"), indent=1)
     rows.append((sid, (ma.get("what") or "")[:110].replace("|", "/").replace("\n", " "), ", ".join("%s%s" % (k, "" if v["exit"] == 1 and v["violation_lines"] else " (missed)") for k, v in sorted(det.items())) or "not evaluated"))
-print("| seed | change | checks run on it (quick tier) |\n|---|---|---|")
-for r in rows: print("| %s | %s | %s |" % r)
+table = "| seed | change | checks run on it (quick tier) |\n|---|---|---|\n" + "\n".join("| %s | %s | %s |" % r for r in rows) + "\n"
+print(table)
+# keep the table in DESIGN.md (between the markers) up to date
+dp = V + "/DESIGN.md"; d = open(dp).read(); b, e = "<!-- seeded-table-begin -->", "<!-- seeded-table-end -->"
+if b in d and e in d: open(dp, "w").write(d[:d.index(b) + len(b)] + "\n" + table + d[d.index(e):])
